@@ -9,6 +9,7 @@ package verifsim
 import (
 	"fmt"
 	"runtime"
+	"runtime/debug"
 	"sort"
 	"strings"
 	"sync"
@@ -113,6 +114,9 @@ type Sim struct {
 	nodes       []*Node
 
 	Stalls []*StallRule
+
+	// SutPanics: panics that reached the top of an instrumented goroutine
+	SutPanics []string
 
 	finished atomic.Bool
 	frozen   atomic.Bool // teardown: no more decisions are drawn or recorded
@@ -261,6 +265,25 @@ func GoStart(tok GoToken, site string) {
 		g.Key = tok.key
 	}
 	s.park(g, site)
+}
+
+// GoRecover is deferred at the top of every instrumented goroutine. A panic
+// that unwinds to the top of a goroutine would crash the real process; here it
+// is recorded (with its stack) and the run is aborted.
+func GoRecover(site string) {
+	r := recover()
+	if r == nil {
+		return
+	}
+	s := cur.Load()
+	if s == nil {
+		panic(r)
+	}
+	msg := fmt.Sprintf("goroutine started at %s: panic: %v\n%s", site, r, debug.Stack())
+	s.mu.Lock()
+	s.SutPanics = append(s.SutPanics, msg)
+	s.mu.Unlock()
+	s.Abort("sut-panic")
 }
 
 // GoOn starts fn as a scheduled goroutine belonging to node (harness use).
